@@ -302,6 +302,7 @@ func checkC13(c *Ctx) {
 	checkSharedGuards(c, "C13.R4.shared-guards", r, bindSites(c, r, "C13.R4.shared-guards"))
 	checkMemoKey(c, "C13.R4.memo-key", r)
 	checkDifferenceExits(c, "C13.R4.difference-exits", pk)
+	checkKindExits(c, "C13.R4.kind-exits", pk)
 	c.Rule("C13.R4.location-key", "every location a shared schema is referenced from is compared: the visited-set key reads every field of the location", 4)
 	checkLocationKey(c, "C13.R4.location-key", pk)
 	// a definition is marked as referenced (hence skipped by the definitions pass) only by a
@@ -1463,5 +1464,113 @@ func checkDifferenceExits(c *Ctx, rule string, pk *packages.Package) {
 		if !seen[k] {
 			c.Anchor(rule, "diff."+k, "reviewed exit not found")
 		}
+	}
+}
+
+// checkKindExits: where the analyser stops comparing two schemas after it has recorded differences
+// (`if len(diffs) > 0 { record; if COND { return } }` with comparisons still to come), COND may tell
+// schemas of another kind apart and nothing else: it reads the Type of the two schemas through
+// functions of other packages only. A rendering helper of the analyser (getSchemaTypeStr spells the
+// item type and the format into the string) makes an array whose items changed "another kind", and
+// the items are never compared.
+func checkKindExits(c *Ctx, rule string, pk *packages.Package) {
+	c.Rule(rule, "a return nested under a found-differences test, with comparisons still to come, is conditioned on the Type of the two schemas only (no helper of the analyser, no other field)", 1)
+	info := pk.TypesInfo
+	n := 0
+	for _, fd := range load.AllFuncs(pk) {
+		if fd.Body == nil {
+			continue
+		}
+		params := map[types.Object]bool{}
+		if fd.Type.Params != nil {
+			for _, f := range fd.Type.Params.List {
+				for _, nm := range f.Names {
+					params[info.ObjectOf(nm)] = true
+				}
+			}
+		}
+		for i, st := range fd.Body.List {
+			outer, ok := st.(*ast.IfStmt)
+			if !ok || outer.Else != nil {
+				continue
+			}
+			be, ok := ast.Unparen(outer.Cond).(*ast.BinaryExpr)
+			if !ok || be.Op != token.GTR {
+				continue
+			}
+			lc, ok := ast.Unparen(be.X).(*ast.CallExpr)
+			if !ok || !goan.IsIdent(lc.Fun, "len") || len(lc.Args) != 1 {
+				continue
+			}
+			if sl, ok := info.TypeOf(lc.Args[0]).Underlying().(*types.Slice); !ok || (goan.NamedName(sl.Elem()) != "TypeDiff" && goan.NamedName(sl.Elem()) != "SpecDifference") {
+				continue
+			}
+			more := false
+			for _, later := range fd.Body.List[i+1:] {
+				ast.Inspect(later, func(m ast.Node) bool {
+					if rc, ok := m.(*ast.CallExpr); ok {
+						if fn := goan.Callee(info, rc); fn != nil && fn.Pkg() == pk.Types && (strings.HasPrefix(strings.ToLower(fn.Name()), "compare") || strings.HasPrefix(strings.ToLower(fn.Name()), "check")) {
+							more = true
+						}
+					}
+					return true
+				})
+			}
+			if !more {
+				continue
+			}
+			for _, in := range outer.Body.List {
+				inner, ok := in.(*ast.IfStmt)
+				if !ok || len(inner.Body.List) == 0 {
+					continue
+				}
+				if _, ok := inner.Body.List[len(inner.Body.List)-1].(*ast.ReturnStmt); !ok {
+					continue
+				}
+				n++
+				bad := ""
+				reads := map[string]bool{}
+				var visit func(m ast.Node) bool
+				depth := 0
+				visit = func(m ast.Node) bool {
+					switch x := m.(type) {
+					case *ast.CallExpr:
+						if fn := goan.Callee(info, x); fn != nil && fn.Pkg() == pk.Types {
+							bad = "it calls " + fn.Name() + ", a helper of the analyser, whose result depends on more than the kind of the schema"
+						}
+					case *ast.SelectorExpr:
+						if root, ok := ast.Unparen(x.X).(*ast.Ident); ok && params[info.ObjectOf(root)] {
+							reads[root.Name+"."+x.Sel.Name] = true
+							if x.Sel.Name != "Type" {
+								bad = "it reads " + goan.ExprString(x)
+							}
+							return false
+						}
+					case *ast.Ident:
+						if params[info.ObjectOf(x)] {
+							bad = "it hands the whole of " + x.Name + " to the test"
+						} else if v, ok := info.ObjectOf(x).(*types.Var); ok && v.Pkg() == pk.Types && v.Parent() != pk.Types.Scope() && !v.IsField() && depth < 4 {
+							// a local: what it was computed from
+							if def := goan.ResolveLocal(info, fd.Body, x); def != nil && def != ast.Expr(x) {
+								depth++
+								ast.Inspect(def, visit)
+								depth--
+							}
+						}
+					}
+					return true
+				}
+				ast.Inspect(inner.Cond, visit)
+				if bad == "" && len(reads) != 2 {
+					bad = "it does not read the Type of both schemas"
+				}
+				key := "diff." + load.FuncName(fd) + " › kind exit after " + goan.ExprString(lc.Args[0])
+				c.Check(bad == "", rule, key, c.posOf(pk, inner.Pos()), "conditioned on "+goan.ExprString(inner.Cond),
+					"the comparison stops under `"+goan.ExprString(inner.Cond)+"`: "+bad+" — an array whose maxItems and item type change together is taken for a schema of another kind, its items are not compared and the narrowing of the items is reported by nothing")
+			}
+		}
+	}
+	if n == 0 {
+		c.Anchor(rule, "diff › kind exit of compareSchema", "not found")
 	}
 }
